@@ -25,6 +25,34 @@ pub fn giant(kind: u64) -> (Sprite, &'static str) {
             }
             (sp, "65535-tags")
         }
+        4 => {
+            // more than 255 of every kind of entity
+            let mut sp = Sprite::blank(5, 4, Fmt::Indexed, 3);
+            sp.transparent_index = 7;
+            let mut pal = std::collections::BTreeMap::new();
+            for i in 0..300u32 {
+                pal.insert(i, PalEntryM { rgba: [(i % 256) as u8, (i / 2 % 256) as u8, 9, if i % 5 == 0 { 128 } else { 255 }], name: if i % 3 == 0 { Some(format!("colour {}", i)) } else { None } });
+            }
+            sp.palette = Some(pal);
+            sp.layers.push(LayerM::image("base"));
+            for i in 0..300u32 {
+                sp.tags.push(TagM { from: (i * 211 % 65536) as u16, to: (65535 - i) as u16, dir: (i % 3) as u8, repeat: (i % 7) as u16, color: i, name: format!("tag{}", i % 50), ud: Some(UserDataM { text: Some(format!("t{}", i)), color: None }) });
+                let nk = if i == 299 { 300 } else { (i % 3) as usize };
+                let flags = i % 4;
+                sp.slices.push(SliceM {
+                    name: format!("slice{}", i % 60),
+                    flags,
+                    keys: (0..nk).map(|k| SliceKeyM { frame: k as u32, x: -(k as i32), y: i as i32, w: k as u32 + 1, h: i + 1, center: if flags & 1 != 0 { Some((1, -1, k as u32, i)) } else { None }, pivot: if flags & 2 != 0 { Some((k as i32, -(i as i32))) } else { None } }).collect(),
+                    ud: if i % 2 == 0 { Some(UserDataM { text: None, color: Some([i as u8, 1, 2, 3]) }) } else { None },
+                });
+                sp.ext_files.push(ExtFileM { id: i * 1_000_003 % 4_000_000_000u32.max(1), name: format!("file{}.aseprite", i) });
+                sp.tilesets.push(TilesetM { id: if i < 290 { i } else { 0x7fff_0000 + i }, flags: TS_EMBED | if i % 2 == 0 { TS_ZERO_EMPTY } else { 0 }, count: 1 + i % 3, tw: 1, th: 1, base_index: (i as i16) - 150, name: format!("ts{}", i), ext: None, pixels: vec![7; (1 + i % 3) as usize] });
+            }
+            // unique external-file ids
+            let mut seen = std::collections::HashSet::new();
+            sp.ext_files.retain(|f| seen.insert(f.id));
+            (sp, "300-of-everything")
+        }
         3 => {
             // both dimensions of the cel table beyond 256, with links into late frames
             let n = 300usize;
@@ -86,7 +114,7 @@ pub fn giant_files() -> Vec<(String, Vec<u8>)> {
     let mut rng = crate::rng::Rng::new(7);
     let mut v = crate::program::Variation::none();
     v.default_storage = Storage::Raw;
-    for k in [0u64, 1, 3, 99] {
+    for k in [0u64, 1, 3, 4, 99] {
         let (sp, name) = giant(k);
         let bytes = crate::encode::encode(&crate::program::compile(&sp, &mut rng, &v)).0;
         out.push((format!("giant:{}", name), bytes));
